@@ -93,17 +93,23 @@ def check_case(sp, col, shard, seed_parts):
             # a third of the processors get one selection variable fixed before anything else is asked of them
             if rnd.random() < .35:
                 cand = [dv for dv in gp.all_des_vars if isinstance(dv.node, an.SelectionChoiceNode)]
-                if cand:
-                    dv_f = rnd.choice(cand)
-                    # only to a value some reference architecture takes (a fix that empties the space is C15's matter)
-                    taken = {a['assign'].get(b.name(dv_f.node)[2:]) for a in archs}   # 'S:<key>'
+                # one or two of them, in any order of their positions; only to values some reference architecture takes
+                # TOGETHER (a fix that empties the space is C15's matter)
+                rnd.shuffle(cand)
+                pool = list(archs)
+                for dv_f in cand[:rnd.choice((1, 2, 2))]:
+                    key = b.name(dv_f.node)[2:]   # 'S:<key>'
+                    taken = {a['assign'].get(key) for a in pool}
                     vals = [k for k, o in enumerate(dv_f.options) if b.name(o) in taken]
+                    if not vals:
+                        break
+                    v_f = rnd.choice(vals)
                     try:
-                        if vals:
-                            gp.fix_des_var(dv_f, rnd.choice(vals))
-                            col.count('monitor_fixed_before_first_decode')
+                        gp.fix_des_var(dv_f, v_f)
+                        col.count('monitor_fixed_before_first_decode')
                     except Exception:  # noqa  (judged by C15)
-                        pass
+                        break
+                    pool = [a for a in pool if a['assign'].get(key) == b.name(dv_f.options[v_f])]
             dvs = gp.des_vars
         except Exception:  # noqa
             col.count('skipped_construct_failed')
